@@ -9,7 +9,7 @@ use serde_json::{json, Value};
 pub const DEF: PropDef = PropDef {
     id: "C18",
     level: "exploration",
-    rule: "every assignment form (put..into, let..be, compound let, `T is <expr>`, `T is <poetic words>`, `T says`, rock T with E, rock T with a list, rock T like, rock T) x 5 targets (simple / common / proper name, pronoun, subscript) x 51 + 235 right-hand sides (number literals of every size: 1..25 digits, 2^k and neighbours, fractions of 1..20 digits, exponents to overflow, leading zeros; 0, 5, 10, 100, 105.25, 0.5, 1e21, 0.1 plus 0.2, a folding list, 0 - 5, -5, 1 over 0, 0 over 0, strings: empty, spaces, punctuation, a line break in the middle / at the end / at the start / alone / doubled, blanks at either end, tab, non-ASCII, token look-alikes, keyword-empty; non-constants: variable, call, roll, boolean, null, mixed, string concatenation, not) x 9 positions (top level, if, else, loop, function, depth 3, after a multi-line comment, after a two-line string, last line without newline); oracle: a diagnostic is due exactly when the reference predicate (ordinary expression folding to one numeric constant, or plain string literal for assignments, not compound) holds; its line is the statement's line; it quotes the value and (plain variables) the target; the starred words of the suggestion spell the digits of the value; instantiating the stars gives a line that parses, runs and leaves the target with that value; values without poetic spelling get no starred / says suggestion; linting never panics; non-trivial = all cases; distinct = distinct text",
+    rule: "every assignment form (put..into, let..be, compound let, `T is <expr>`, `T is <poetic words>`, `T says`, rock T with E, rock T with a list, rock T like, rock T) x 5 targets (simple / common / proper name, pronoun, subscript) x 54 + 235 right-hand sides (number literals of every size: 1..25 digits, 2^k and neighbours, fractions of 1..20 digits, exponents to overflow, leading zeros; 0, 5, 10, 100, 105.25, 0.5, 1e21, 0.1 plus 0.2, a folding list, 0 - 5, -5, 1 over 0, 0 over 0, strings: empty, spaces, punctuation, a line break in the middle / at the end / at the start / alone / doubled, blanks at either end, tab, non-ASCII, token look-alikes, keyword-empty; non-constants: variable, call, roll, boolean, null, mixed, string concatenation, not) x 9 positions (top level, if, else, loop, function, depth 3, after a multi-line comment, after a two-line string, last line without newline); second family: all sequences of 2..3 of 24 one-line statements (7 with a due diagnostic, 17 without, covering every statement shape the pass has an arm for): the reported lines are exactly the due lines; oracle: a diagnostic is due exactly when the reference predicate (ordinary expression folding to one numeric constant, or plain string literal for assignments, not compound) holds; its line is the statement's line; it quotes the value and (plain variables) the target; the starred words of the suggestion spell the digits of the value; instantiating the stars gives a line that parses, runs and leaves the target with that value; values without poetic spelling get no starred / says suggestion; linting never panics; non-trivial = all cases; distinct = distinct text",
     assumptions: &["reference predicate and constant value computed on the position-free tree with the reference interpreter", "round-trip tolerance: 4 ulp up to 7 digits, 64 ulp for longer numerals (the rounding of poetic literals)"],
     build,
     exhaustive: true,
@@ -19,7 +19,7 @@ pub const FORMS: &[&str] = &["put E into T", "let T be E", "let T be with E", "l
 pub const TARGETS: &[&str] = &["x", "the zed", "Zed Yod", "it", "x at 0"];
 pub const RHS: &[&str] = &[
     "0", "5", "10", "100", "105.25", "0.5", "1e21", "0.1 plus 0.2", "2 times 3, 4", "0 - 5", "-5", "-0", "0 times -2", "0 over -5", "0.0", "1 over 0", "0 over 0", "-1 over 0", "1e308 times 10", "1 over 3", "123456789012345678", "0.1", "1e16", "10 without 1, 2", "100 over 5, 2", "2 times 3, 4 plus 1", "\"\"", "\"a b\"", "\"a, b! (c)\"", "\"a\nb\"", "empty", "y",
-    "fun taking 1", "roll y", "true", "null", "1 plus y", "\"a\" plus \"b\"", "not 1",
+    "fun taking 1", "roll y", "roll 5", "5 at 0", "roll \"s\"", "true", "null", "1 plus y", "\"a\" plus \"b\"", "not 1",
     // strings: a line break at the end, at the start, alone, doubled; blanks at either end; a tab; non-ASCII; look-alikes of other tokens
     "\"a\n\"", "\"\n\"", "\"\na\"", "\"a\n\nb\"", "\" a\"", "\"a \"", "\"a\tb\"", "\"é😀\"", "\"5\"", "\"says x\"", "\"it's\"", "\"true\"",
 ];
@@ -38,7 +38,17 @@ pub const CONTEXTS: &[(&str, &str, bool)] = &[
 
 pub struct C18 {
     cases: Space<(usize, usize, usize, usize)>,
+    /// programs of several one-line statements: the reported lines must be exactly the due lines
+    multi: Space<Vec<&'static str>>,
 }
+
+/// one-line statements, with and without a due diagnostic, including every statement shape the pass
+/// has its own arm for (so that no arm can end the whole pass)
+pub const MULTI: &[&str] = &[
+    "put 5 into x", "let y be 2 times 3", "rock z with 7", "x is 5", "put \"s\" into y", "put 0 - 5 into z", "let the zed be 1.5",
+    "rock z", "rock z like a rolling stone", "rock z with 1, 2", "rock z with \"s\"", "let x be with 5", "y says hi", "x is a wordy literal",
+    "put y into x", "say 5", "listen to x", "build x up", "roll z", "roll z into y", "cut y into w", "fun taking 5", "put fun taking 5 into x", "let x at 0 be y",
+];
 
 /// right-hand side number r: the hand-written list, then number literals of every size
 pub fn rhs(r: usize) -> String {
@@ -57,7 +67,8 @@ fn build(_tier: Tier) -> Box<dyn Check> {
     let t: Space<usize> = Space::of((0..TARGETS.len()).collect());
     let r: Space<usize> = Space::of((0..rhs_count()).collect());
     let c: Space<usize> = Space::of((0..CONTEXTS.len()).collect());
-    Box::new(C18 { cases: f.product(&t, |f, t| (f, t)).product(&r, |(f, t), r| (f, t, r)).product(&c, |(f, t, r), c| (f, t, r, c)) })
+    let m: Space<&'static str> = Space::of(MULTI.to_vec());
+    Box::new(C18 { cases: f.product(&t, |f, t| (f, t)).product(&r, |(f, t), r| (f, t, r)).product(&c, |(f, t, r), c| (f, t, r, c)), multi: m.seq_range(2, 3) })
 }
 
 pub fn fill(form: &str, t: &str, e: &str) -> String {
@@ -195,13 +206,56 @@ impl C18 {
 
 impl Check for C18 {
     fn families(&self) -> Vec<(String, u64)> {
-        vec![("form x target x rhs x position".into(), self.cases.len())]
+        vec![("form x target x rhs x position".into(), self.cases.len()), ("programs of 2..3 statements".into(), self.multi.len())]
     }
-    fn describe(&self, _fam: usize, idx: u64) -> Value {
+    fn describe(&self, fam: usize, idx: u64) -> Value {
+        if fam == 1 {
+            return json!({"text": self.multi.get(idx).join("\n") + "\n"});
+        }
         let (t, line, _) = self.text(idx);
         json!({"text": t, "statement_line": line})
     }
-    fn run_case(&self, _fam: usize, idx: u64, ctx: &mut Ctx) {
+    fn run_case(&self, fam: usize, idx: u64, ctx: &mut Ctx) {
+        if fam == 1 {
+            let text = self.multi.get(idx).join("\n") + "\n";
+            ctx.case_text(&text);
+            let prog = match rrss::frontend::parser::parse(&text) {
+                Ok(p) => p,
+                Err(e) => {
+                    ctx.violation("unexpected-parse-error", format!("{} — {:?}", e, text));
+                    return;
+                }
+            };
+            ctx.nontrivial();
+            let tree = rast::program(&prog);
+            // one statement per line, no blocks: statement i is on line i + 1
+            let due_lines: Vec<u32> = tree.iter().enumerate().filter(|(_, s)| reference_predicate(s).0.is_some()).map(|(i, _)| i as u32 + 1).collect();
+            let own: Vec<rrss::linter::Diag> = {
+                use rrss::analysis::visit::VisitProgram;
+                match rrss::linter::passes::BoringAssignmentPass.visit_program(&prog) {
+                    Ok(rrss::linter::ListBuilder::One(d)) => vec![d],
+                    Ok(rrss::linter::ListBuilder::List(v)) => v,
+                    Ok(rrss::linter::ListBuilder::Empty) => Vec::new(),
+                    Err(()) => {
+                        ctx.violation("missing-diagnostic", format!("the constant-assignment pass gave up on the program (Err) — {:?}", text));
+                        return;
+                    }
+                }
+            };
+            let result = rrss::linter::standard_linter().run(&prog);
+            ctx.observe_str(&format!("{}", result));
+            let mut got: Vec<u32> = own.iter().map(|d| d.line).collect();
+            got.sort();
+            if got != due_lines {
+                ctx.violation("missing-diagnostic", format!("constant-assignment diagnostics are due on lines {:?} but the pass reports lines {:?} — {:?}", due_lines, got, text));
+                return;
+            }
+            let in_result = own.iter().filter(|o| result.diags.iter().any(|d| d == *o)).count();
+            if in_result != own.len() {
+                ctx.violation("missing-diagnostic", format!("the linter result lacks {} of the {} diagnostics of the constant-assignment pass — {:?}: {}", own.len() - in_result, own.len(), text, result));
+            }
+            return;
+        }
         let (text, line, _) = self.text(idx);
         ctx.case_text(&text);
         let prog = match rrss::frontend::parser::parse(&text) {
